@@ -15,11 +15,14 @@ Proof.
   - eauto.
   - destruct (is_iface (lookup G n)); [eauto|].
     destruct (scan (hand_of (lookup G n) ++ sigs_of vis n)) as [[hc hi] ptr]. eauto.
-  - eauto.
+  - cbn. eauto.
   - eauto.
   - eauto.
   - destruct (scan ms) as [[hc hi] ptr]. eauto.
 Qed.
+
+Lemma field_stmt_fixed_error : forall G vis f, field_stmt all_fixed G vis f FError = Ok (SAssign f, None).
+Proof. reflexivity. Qed.
 
 Lemma field_stmt_unfixed_error_panics : forall G vis f,
   field_stmt no_fix G vis f FError = Panic.
@@ -286,6 +289,7 @@ Lemma field_stmt_dep : forall G vis f t s k,
   t = FNamed (fst k) (snd k) /\ is_iface (lookup G (fst k)) = false.
 Proof.
   intros G vis f t s k H. destruct t as [n|e|k' e|n args| | |n|ms];
+    try rewrite field_stmt_fixed_error in H;
     cbn [field_stmt all_fixed fx_iface fx_nilpkg fx_mapptr andb] in H; try discriminate.
   - destruct (is_iface (lookup G n)) eqn:Hi; [discriminate|].
     destruct (scan (hand_of (lookup G n) ++ sigs_of vis n)) as [[a b] c]. inversion H; subst. cbn. auto.
